@@ -132,13 +132,15 @@ def first_stmt_index(body):
 
 
 def polarity_guard(cfg, n, pred):
-    """First dominating branch edge (test_ast, polarity) whose test satisfies
-    pred(test_ast); None when absent."""
-    for (t, pol, gn) in cfg.guards(n):
-        if not isinstance(t, ast.expr):
+    """First dominating fact (atom, truth, None) whose atom satisfies
+    pred(atom); atoms are normalised (see guard_atoms): `if not x: return`
+    followed by code yields (x, True) for that code."""
+    for (a, truth) in guard_atoms(cfg, n):
+        try:
+            if pred(a):
+                return (a, truth, None)
+        except Exception:
             continue
-        if pred(t):
-            return (t, pol, gn)
     return None
 
 
@@ -202,6 +204,15 @@ _NEG = {ast.NotEq: ast.Eq, ast.NotIn: ast.In, ast.IsNot: ast.Is,
         ast.GtE: ast.Lt, ast.Gt: ast.LtE}
 
 
+# op -> ((canonical op, swap operands) if true, (...) if false)
+_ORDER = {
+    ast.Lt: ((ast.Lt, False), (ast.LtE, True)),
+    ast.LtE: ((ast.LtE, False), (ast.Lt, True)),
+    ast.Gt: ((ast.Lt, True), (ast.LtE, False)),
+    ast.GtE: ((ast.LtE, True), (ast.Lt, False)),
+}
+
+
 def _atoms(t, pol, out):
     if isinstance(t, ast.UnaryOp) and isinstance(t.op, ast.Not):
         _atoms(t.operand, not pol, out)
@@ -211,6 +222,15 @@ def _atoms(t, pol, out):
     elif isinstance(t, ast.BoolOp) and isinstance(t.op, ast.Or) and not pol:
         for v in t.values:
             _atoms(v, False, out)
+    elif isinstance(t, ast.Compare) and len(t.ops) == 1 and \
+            type(t.ops[0]) in _ORDER:
+        # order comparisons: canonical form is `<` / `<=` holding true
+        # (a > b  ==  b < a;  not a < b  ==  b <= a)
+        op, swap = _ORDER[type(t.ops[0])][0 if pol else 1]
+        a, b = t.left, t.comparators[0]
+        if swap:
+            a, b = b, a
+        out.append((ast.Compare(left=a, ops=[op()], comparators=[b]), True))
     elif isinstance(t, ast.Compare) and len(t.ops) == 1 and \
             type(t.ops[0]) in _NEG:
         pos = ast.Compare(left=t.left, ops=[_NEG[type(t.ops[0])]()],
@@ -243,3 +263,8 @@ def guarded(cfg, node, pattern, truth=True):
                    for a, at in guard_atoms(cfg, node)):
             return False
     return True
+
+
+def gfacts(cfg, node):
+    """[(normalised text of atom, truth)] for the facts dominating node."""
+    return [(norm(a), t) for a, t in guard_atoms(cfg, node)]
